@@ -164,6 +164,11 @@ pub fn layout(spec: &mut ElfSpec, r: &mut Rng) -> Built {
     }
     if spec.have_shdrs && !spec.tables_early { while pos % 8 != 0 { pos += 1; } shoff = pos; pos += nsec * shentsize(class); }
     for g in spec.segs.iter_mut() {
+        if g.sec.is_none() && g.off == u64::MAX {
+            let si = g.memsz as usize;
+            g.off = spec.secs[si].off;
+            g.memsz = g.filesz;
+        }
         if let Some(si) = g.sec {
             g.off = spec.secs[si].off;
             g.filesz = if spec.secs[si].nobits.is_some() { 0 } else { spec.secs[si].data.len() as u64 };
@@ -374,7 +379,16 @@ pub fn random_elf(r: &mut Rng, rich: bool) -> (ElfSpec, Built) {
     let note_idx = fix(note_idx);
     // segments
     if sp.have_phdrs {
-        if let Some(di) = dyn_idx { sp.segs.push(Seg { ty: 2, flags: 6, sec: Some(di), align: 8, ..Default::default() }); }
+        if let Some(di) = dyn_idx {
+            // PT_DYNAMIC usually designates the .dynamic section; sometimes only a leading part of it, or other bytes
+            let mut g = Seg { ty: 2, flags: 6, sec: Some(di), align: 8, ..Default::default() };
+            match r.below(6) {
+                0 | 1 => { g.sec = None; g.off = u64::MAX; g.filesz = (sp.secs[di].data.len() as u64 / 2 / dynsz) * dynsz; g.memsz = di as u64; }
+                2 => { g.sec = Some(r.range(1, sp.secs.len() as u64 - 1) as usize); }
+                _ => {}
+            }
+            sp.segs.push(g);
+        }
         else if !sp.have_shdrs && r.chance(1, 2) { /* PT_DYNAMIC without sections handled below */ }
         if let Some(ni) = note_idx { sp.segs.push(Seg { ty: 4, flags: 4, sec: Some(ni), align: sp.secs[ni].align, ..Default::default() }); }
         for _ in 0..r.below(3) {
